@@ -369,7 +369,7 @@ def check(c):
         c.thorough_proof(['C09'])
     r = c.rng
     run = Runner(c)
-    N = 250 if c.tier == 'quick' else 4000
+    N = 400 if c.tier == 'quick' else 5000
 
     # ------------------------------------------------------------------
     # (1) impl vs model on histories; history laws on the implementation alone
@@ -494,7 +494,7 @@ def check(c):
     # ------------------------------------------------------------------
     # (3) let-substitution: g = e; uses of g   vs   uses of (e)
     lets = []
-    nl = 200 if c.tier == 'quick' else 3000
+    nl = 600 if c.tier == 'quick' else 8000
     for _ in range(nl):
         g = Gen(r)
         pre, env = gen_history(r, nsteps=r.randint(0, 3))
@@ -533,8 +533,9 @@ def check(c):
     # ------------------------------------------------------------------
     # (4) shadowing of built-in names and units: same program with a fresh name
     BUILTINS = ['pi', 'e', 'sin', 'abs', 'sqrt', 'i', 'kg', 'm', 'km', 'tau', 'ln', 'true', 'roll', 'fib', 'today', 'ans2', 'log', 'c', 'h', 'k',
-                'PI', 'KG', 'dp', 'sf', 'hex', 'binary', 'float', 'exact', 'version', 'earth', 'mean', 'not', 'base', 'auto', 'x', 'd6']
-    KEYWORDS = ['to', 'as', 'in', 'of', 'per', 'mod', 'xor', 'and', 'or', 'nCr', 'nPr', 'choose', 'permute', 'XOR', 'AND', 'OR']
+                'PI', 'KG', 'dp', 'sf', 'hex', 'binary', 'float', 'exact', 'version', 'earth', 'mean', 'not', 'base', 'auto', 'x']
+    KEYWORDS = ['to', 'as', 'in', 'of', 'per', 'mod', 'xor', 'and', 'or', 'nCr', 'nPr', 'choose', 'permute', 'XOR', 'AND', 'OR',
+                'd6', '2d6', '0x1f', '1e3']   # the last four are number literals, not identifiers
     sh = []
     for b in BUILTINS:
         for val, use in (('3', '%s + 1'), ('3', '2 * %s'), ('(x: x + 1)', '%s 4'), ('(x: x + 1)', '(%s) (4)'), ('7', '(y: y + %s) 1'), ('7', '%s')):
